@@ -863,6 +863,7 @@ func runC07(c *Ctx) {
 		c.Count("pkt:transform:" + t.kind)
 		c.Eval(depth > 0 || t.kind != "none", descs(ws)+t.String()+want)
 	})
+	runC07S3(c) // extension round 3: hex / base64 codecs against their Lean models (c07_s3.go)
 }
 
 func btoi(b bool) int {
